@@ -216,8 +216,8 @@ impl Boudot2000RangeProof {
     where
         H: Digest,
     {
-        // F is a residue modulo n: only its canonical representative is accepted
-        if proof_of_s.F < 0 || &proof_of_s.F >= n {
+        // E and F are residues modulo n: only their canonical representatives are accepted
+        if proof_of_s.F < 0 || &proof_of_s.F >= n || proof_of_s.E < 0 || &proof_of_s.E >= n {
             return false;
         }
 
